@@ -7,6 +7,12 @@ THEOREMS = ["ZwVerif.C02." + t for t in
             ["iter_step", "iter_is_preorder", "parentTable_offsets", "raw_positions"]]
 
 
+RAW_NAVS = ["parent", "child", "root", "unit root", "unit entry", "parent parent", "child parent", "parent child",
+            # (not `attribute value` / `@AT_x`: at_value builds cooked DIEs by design — `@AT_x` is documented as sugar for
+            # `attribute ?(label == AT_x) cooked value` — and `value` is not one of the raw-view words of the property)
+            "(|D| D parent ?(offset == D parent offset))", "dup parent swap drop", "?(parent) parent"]
+
+
 def run(ctx):
     if ctx.replay:
         return dwcorr.run_replay(ctx)
@@ -17,6 +23,7 @@ def run(ctx):
     ok = 0
     dies = 0
     shapes = {}
+    nav_results = {}
     try:
         for k in range(n):
             opts = {}
@@ -26,6 +33,8 @@ def run(ctx):
                 opts = {"max_units": 6, "min_units": 3}
             if k % 2:
                 opts.update({"dup_attrs": 0.15, "implicit_consts": 0.5, "cu_imports": 0.3})
+            if k % 4 == 3:
+                opts["vendor_forms"] = 0.15       # GNU_str_index / GNU_addr_index: form codes above 0xff
             if k % 3 == 2:
                 opts["type_units"] = 0.4           # DWARF 5 type units: roots that are neither compile nor partial units
             desc, path = fs.make(rng, **opts)
@@ -35,6 +44,25 @@ def run(ctx):
                                             # the same questions asked last DIE first and last unit first (caches keyed per unit)
                                             "[raw entry] relem [offset value, [parent offset value], [child offset value]]",
                                             "[raw unit] relem [offset value, [entry [offset value, [parent offset value]]]]"])
+            # whatever word leads from a raw DIE to a DIE, the DIE arrived at is raw: its children and attributes are the stored ones
+            import json as _json
+            byoff = dict((x[0], x) for x in (_json.loads(w) for w in want))
+            nrecs, _ = fs.query(path, ["raw entry %s [offset value, [child offset value], [attribute label value]]" % nav for nav in RAW_NAVS])
+            for nav, nr in zip(RAW_NAVS, nrecs):
+                if nr.err:
+                    if nr.err.startswith("compile"):
+                        raise RuntimeError("navigation query does not compile: %s: %s" % (nav, nr.err))
+                    continue
+                nav_results[nav] = nav_results.get(nav, 0) + len(nr.res)
+                for r in nr.res:
+                    x = _json.loads(dwcorr.normalize(r))
+                    t = byoff.get(x[0])
+                    if t is None or x[1] != t[4] or x[2] != [a for a, _ in t[5]]:
+                        ctx.violation("`raw entry %s` arrives at DIE %s which shows children %s and attributes %s; the file holds %s"
+                                      % (nav, x[0], x[1], x[2], [t[4], [a for a, _ in t[5]]] if t else None),
+                                      {"stream": "C02-forest", "input": fs.inp(desc, path, "raw entry %s [offset value, [child offset value], [attribute label value]]" % nav),
+                                       "got": x, "expected": t, "theorem": "ZwVerif.C02.iter_is_preorder"})
+                        break
             if crashes or recs[0].err:
                 ctx.violation("the library failed on a generated forest (%d units): %s" % (len(desc["units"]), recs[0].err or crashes),
                               {"stream": "C02-forest", "input": fs.inp(desc, path, dwcorr.RAW_QUERY)})
@@ -121,6 +149,7 @@ def run(ctx):
         samples = sorted(glob.glob(os.path.join(common.REPO, "tests", "*.o")) + [os.path.join(common.REPO, "tests", f)
                          for f in ("a1.out", "twocus", "dwz-partial", "dwz-partial2-1", "haschildren_childless", "empty")])
         samples = [s for s in samples if os.path.exists(s)]
+        all_samples = list(samples)
         if ctx.tier == "quick":
             samples = samples[:12]
         s_ok = 0
@@ -136,12 +165,33 @@ def run(ctx):
                               {"stream": "C02-samples", "input": s})
             else:
                 s_ok += 1
+        # … and their main file's DIEs (offset, tag, parent, children flag, children, (attribute, form) in stored order) are what an
+        # independent dumper decodes; dwz samples go on with the alternate file's DIEs, which are not compared
+        s_llvm = 0
+        for s in all_samples:
+            want = dwcorr.llvm_dies(s)
+            if not want:
+                continue
+            recs, crashes = fs.query(s, [dwcorr.RAW_QUERY])
+            if crashes or recs[0].err:
+                continue
+            got = [dwcorr.normalize(r) for r in recs[0].res][:len(want)]
+            if got != want:
+                i = next((i for i, (a, b) in enumerate(zip(got, want)) if a != b), min(len(got), len(want)))
+                ctx.violation("%s: raw DIE #%d: library reports %s, llvm-dwarfdump decodes %s"
+                              % (os.path.basename(s), i, got[i] if i < len(got) else None, want[i] if i < len(want) else None),
+                              {"stream": "C02-samples", "input": {"file": s, "query": dwcorr.RAW_QUERY},
+                               "got": got[i] if i < len(got) else None, "expected": want[i] if i < len(want) else None})
+            else:
+                s_llvm += 1
+        ctx.cov["sample_files_agreeing_with_llvm_dwarfdump"] = s_llvm
     finally:
         fs.cleanup()
     ctx.cov["evaluations"] = dies + ctx.cov.get("compiler_object_dies", 0)
     ctx.cov["distinct_nontrivial"] = ok
     ctx.cov["forests"] = n
     ctx.cov["forests_by_unit_count"] = shapes
+    ctx.cov["raw_navigation_results"] = nav_results
     ctx.cov["sample_files_consistent"] = s_ok
     ctx.cov["rule"] = ("generated DWARF forests (1-6 units, DWARF 2-5 headers, empty units, childless DIEs whose abbreviation claims "
                        "children, nesting to depth 4, sibling attributes, all common forms) whose bytes and offsets are laid out by the "
